@@ -135,6 +135,7 @@ func cmdRun(argv []string) int {
 	tags := fs.String("tags", "", "build tags")
 	maxFail := fs.Int("maxfail", 5, "stop after this many failing paths per harness")
 	cpuprof := fs.String("cpuprofile", "", "write CPU profile")
+	deadline := fs.Int("deadline", 0, "stop exploring a harness after this many seconds (outcome: budget)")
 	fs.Parse(argv)
 	if *cpuprof != "" {
 		f, _ := os.Create(*cpuprof)
@@ -192,7 +193,7 @@ func cmdRun(argv []string) int {
 		}
 		cfg := &Config{Prog: prog, Pkg: pkg, Harness: fn, Params: pm, Seams: seams, Unwind: *unwind, StrCap: *strcap,
 			MaxInstr: *maxInstr, Preempt: *preempt, NoMerge: *noMerge, Races: *races, ModulePath: mod}
-		sum := explore(cfg, *workers, *solverBin, *timeoutMs, *maxPaths, *maxFail, *smtlog)
+		sum := explore(cfg, *workers, *solverBin, *timeoutMs, *maxPaths, *maxFail, *smtlog, *deadline)
 		sum.Harness = h
 		sum.Params = pm
 		sum.Extra = map[string]string{"goos": *goos, "load_s": fmt.Sprintf("%.2f", loadSecs), "solver": *solverBin}
@@ -225,7 +226,7 @@ func cmdRun(argv []string) int {
 	return rc
 }
 
-func explore(cfg *Config, workers int, solverBin string, timeoutMs, maxPaths, maxFail int, smtlog string) *Summary {
+func explore(cfg *Config, workers int, solverBin string, timeoutMs, maxPaths, maxFail int, smtlog string, deadline int) *Summary {
 	t0 := time.Now()
 	sum := &Summary{Outcomes: map[string]int{}, FnInstr: map[string]int{}}
 	var mu sync.Mutex
@@ -324,7 +325,7 @@ func explore(cfg *Config, workers int, solverBin string, timeoutMs, maxPaths, ma
 					sum.Samples = append(sum.Samples, map[string]interface{}{"decisions": res.Decisions, "instrs": res.Instrs, "obligations": res.Oblig, "notes": res.Events})
 				}
 				work = append(work, res.NewWork...)
-				if sum.Paths >= maxPaths {
+				if sum.Paths >= maxPaths || (deadline > 0 && time.Since(t0).Seconds() > float64(deadline) && !stop) {
 					stop = true
 					sum.Outcomes[string(OutBudget)]++
 				}
